@@ -13,33 +13,37 @@ import (
 
 // connInfo is the harness's ground truth about one connection (for the oracles).
 type connInfo struct {
-	cid       int
-	c         gnet.Conn
-	opened    bool
-	closed    bool
-	closeErr  bool
-	consumed  int    // bytes consumed by the handler so far
-	accepted  []byte // bytes accepted by write operations, in effect order
-	udp       bool
-	localReq  bool // a local close was requested for it
-	traffic   int
-	badAfter  bool
-	unflushed bool // ReadFrom without a following Flush: outside the property's write operations
-	untracked bool // an asynchronous write without callback was issued: effect point unknown to the oracle
+	cid         int
+	c           gnet.Conn
+	opened      bool
+	closed      bool
+	closeErr    bool
+	consumed    int    // bytes consumed by the handler so far
+	accepted    []byte // bytes accepted by write operations, in effect order
+	udp         bool
+	localReq    bool // a local close was requested for it
+	traffic     int
+	badAfter    bool
+	unflushed   bool     // ReadFrom without a following Flush: outside the property's write operations
+	asyncIssued [][]byte // payloads of asynchronous writes with callback, in issue order
+	asyncDone   int
+	untracked   bool // an asynchronous write without callback was issued: effect point unknown to the oracle
 }
 
 type handler struct {
 	gnet.BuiltinEventEngine
-	rec  *recorder
-	rnd  *tr.Rand
-	mu   sync.Mutex
-	eng  gnet.Engine
-	byC  map[gnet.Conn]*connInfo
-	all  []*connInfo
-	cfg  *caseCfg
-	nCbs int
-	w    *tr.Writer
-	cur  *connInfo // connection of the innermost callback in progress
+	rec       *recorder
+	rnd       *tr.Rand
+	mu        sync.Mutex
+	eng       gnet.Engine
+	byC       map[gnet.Conn]*connInfo
+	all       []*connInfo
+	cfg       *caseCfg
+	nCbs      int
+	w         *tr.Writer
+	cur       *connInfo // connection of the innermost callback in progress
+	inTraffic chan struct{}
+	release   chan struct{}
 }
 
 func (h *handler) OnBoot(eng gnet.Engine) gnet.Action {
@@ -232,6 +236,13 @@ func (h *handler) payload(n int) []byte {
 
 func (h *handler) pickAction(ci *connInfo, cb string) gnet.Action {
 	if h.cfg.scenario != "" {
+		if h.cfg.scenario == "stale-requests" && cb == "traffic" && ci.cid == 0 {
+			ci.localReq = true
+			return gnet.Close
+		}
+		if h.cfg.scenario == "shutdown-sweep" && cb == "close" {
+			return gnet.Shutdown // every OnClose of the shutdown sweep asks for shutdown again
+		}
 		if h.cfg.scenario == "shutdown-from-onclose" && cb == "close" {
 			h.rec.mu.Lock()
 			h.rec.shutdown = true
@@ -241,6 +252,12 @@ func (h *handler) pickAction(ci *connInfo, cb string) gnet.Action {
 		return gnet.None
 	}
 	p := h.rnd.Intn(1000)
+	h.rec.mu.Lock()
+	sweeping := h.rec.shutdown
+	h.rec.mu.Unlock()
+	if cb == "close" && sweeping && h.rnd.Chance(h.cfg.pSweepShutdown) {
+		return gnet.Shutdown
+	}
 	switch {
 	case p < h.cfg.pClose:
 		if cb != "close" {
@@ -501,7 +518,7 @@ func (h *handler) doCall(ci *connInfo, call string, n int, data []byte, cb bool)
 		rec.Op(h.hl(ci, "flush"))
 		err := c.Flush()
 		es := errSym(err)
-		if err != nil && err.Error() == "server is going to be shutdown" {
+		if err != nil && err.Error() == "gnet: server is going to be shutdown" {
 			es = "shutdown"
 		}
 		rec.Obs(tr.L("hr", tr.I(ci.cid), "flush", es))
@@ -542,7 +559,7 @@ func (h *handler) doCall(ci *connInfo, call string, n int, data []byte, cb bool)
 		ci.localReq = true
 		err := c.EventLoop().Close(c)
 		es := errSym(err)
-		if err != nil && err.Error() == "server is going to be shutdown" {
+		if err != nil && err.Error() == "gnet: server is going to be shutdown" {
 			es = "shutdown"
 		}
 		rec.Obs(tr.L("hr", tr.I(ci.cid), "elclose", es))
@@ -558,6 +575,11 @@ func (h *handler) acb(kind string, ci *connInfo, want bool, data []byte) gnet.As
 		return nil
 	}
 	fired := false
+	if (kind == "write" || kind == "writev") && data != nil {
+		h.mu.Lock()
+		ci.asyncIssued = append(ci.asyncIssued, data)
+		h.mu.Unlock()
+	}
 	return func(c gnet.Conn, err error) error {
 		if fired {
 			h.rec.Fail("async-callback", "twice:"+kind, fmt.Sprintf("cid %d", ci.cid))
@@ -568,13 +590,22 @@ func (h *handler) acb(kind string, ci *connInfo, want bool, data []byte) gnet.As
 			switch err.Error() {
 			case "use of closed network connection":
 				es = "closed"
-			case "server is going to be shutdown":
+			case "gnet: server is going to be shutdown":
 				es = "shutdown"
 			}
 		}
 		cid := ci.cid
 		if c == nil {
 			cid = -1
+		}
+		if (kind == "write" || kind == "writev") && data != nil {
+			// asynchronous writes issued by one goroutine are carried out in issue order (C02/C03)
+			h.mu.Lock()
+			if ci.asyncDone < len(ci.asyncIssued) && !bytes.Equal(ci.asyncIssued[ci.asyncDone], data) {
+				h.rec.Fail("outbound-async-order", kind, fmt.Sprintf("cid %d: asynchronous write #%d carried out is not the #%d issued", ci.cid, ci.asyncDone, ci.asyncDone))
+			}
+			ci.asyncDone++
+			h.mu.Unlock()
 		}
 		if (kind == "write" || kind == "writev") && err == nil && c != nil {
 			ci.accepted = append(ci.accepted, data...) // the asynchronous write took effect now
@@ -624,6 +655,37 @@ func (h *handler) scenarioScript(ci *connInfo, cb string) {
 			h.doCall(ci, "readfrom", 0, big(400000), false)
 			h.doCall(ci, "flush", 0, nil, false)
 			h.doCall(ci, "write", 0, big(1000), false)
+		} else if cb == "traffic" {
+			h.doCall(ci, "next", -1, nil, false)
+		}
+	case "writev-eagain":
+		if cb == "traffic" && ci.traffic == 1 {
+			h.doCall(ci, "next", -1, nil, false)
+			h.doCall(ci, "writev", 1500, big(12000), false) // first writev(2): EAGAIN injected
+		} else if cb == "traffic" {
+			h.doCall(ci, "next", -1, nil, false)
+		}
+	case "close-drain-error":
+		if cb == "traffic" && ci.traffic == 1 {
+			h.doCall(ci, "next", -1, nil, false)
+			h.doCall(ci, "write", 0, big(300000), false) // partly buffered
+			h.doCall(ci, "close", 0, nil, false)         // close request: el.close drains, the drain write fails
+		}
+	case "shutdown-sweep", "stale-requests":
+		if cb == "traffic" {
+			h.doCall(ci, "next", -1, nil, false)
+		}
+	case "async-flood":
+		if cb == "traffic" && ci.traffic == 1 {
+			h.doCall(ci, "next", -1, nil, false)
+			select {
+			case h.inTraffic <- struct{}{}:
+			default:
+			}
+			select {
+			case <-h.release:
+			case <-time.After(3 * time.Second):
+			}
 		} else if cb == "traffic" {
 			h.doCall(ci, "next", -1, nil, false)
 		}
